@@ -26,10 +26,71 @@ theorem refTypeOf_some {d0 : StructDef} {t ty : String} (h : refTypeOf d0 t = so
     subst h
     exact ⟨_, _, rfl, rfl⟩
 
+theorem isBytesMember_some {d0 : StructDef} {t : String} (h : isBytesMember d0 t = true) :
+    ∃ tf sf, d0.fields.find? (·.name == t) = some tf ∧ tf.kind = .barray sf := by
+  unfold isBytesMember at h
+  cases hf : d0.fields.find? (·.name == t) with
+  | none => simp [hf] at h
+  | some tf =>
+    obtain ⟨n, k, c⟩ := tf
+    cases k <;> simp [hf] at h
+    exact ⟨_, _, rfl, rfl⟩
+
+theorem isBytesMember_of_ref {d0 : StructDef} {t ty : String} (h : refTypeOf d0 t = some ty) : isBytesMember d0 t = false := by
+  obtain ⟨tf, lim, hfind, hk⟩ := refTypeOf_some h
+  unfold isBytesMember
+  obtain ⟨n, k, c⟩ := tf
+  simp only at hk
+  subst hk
+  simp [hfind]
+
+theorem refTypeOf_of_bytes {d0 : StructDef} {t : String} (h : isBytesMember d0 t = true) : refTypeOf d0 t = none := by
+  obtain ⟨tf, sf, hfind, hk⟩ := isBytesMember_some h
+  unfold refTypeOf
+  obtain ⟨n, k, c⟩ := tf
+  simp only at hk
+  subst hk
+  simp [hfind]
+
+/-- the `…_computed` property is the interpreter's size-ref value -/
+theorem computed_eval' {r : Rec} {d d0 : StructDef} {vs : List (String × Val)} {S : Schema} {T : String → Bytes → Bytes}
+    (hvs : NamesOk vs) (hcompat : ∀ n tf, d0.fields.find? (·.name == n) = some tf → lookupField d.fields n = some tf)
+    {m t : String} {dl : Int}
+    (hmt : mangledFree t = true) (hraw : rawNameOk t = true)
+    (hk : ((refTypeOf d0 t).isSome || isBytesMember d0 t) = true) (ss : R Nat) :
+    (IntExpr.computed m t (refTypeOf d0 t) (isBytesMember d0 t) dl).eval { S := S, T := T, calls := r, vs := vs, selfSize := ss } =
+      sizeRefValue r d.fields vs t dl := by
+  cases hty : refTypeOf d0 t with
+  | some ty =>
+    obtain ⟨tf, lim, hfind, htk⟩ := refTypeOf_some hty
+    have hl := hcompat t _ hfind
+    simp only [IntExpr.eval, attrOf_raw hvs hraw hmt, sizeRefValue, hl, isBytesMember_of_ref hty]
+    cases hv : Val.get vs t with
+    | none => rfl
+    | some v =>
+      simp only
+      by_cases ht : truthy v = true
+      · simp only [ht, Bool.not_true, Bool.false_eq_true, if_false, htk, memberSizeOf]
+      · have ht' : truthy v = false := by simpa using ht
+        simp [ht']
+  | none =>
+    simp only [hty, Option.isSome_none, Bool.false_or] at hk
+    obtain ⟨tf, sf, hfind, htk⟩ := isBytesMember_some hk
+    have hl := hcompat t _ hfind
+    simp only [IntExpr.eval, attrOf_raw hvs hraw hmt, sizeRefValue, hl, hk]
+    cases hv : Val.get vs t with
+    | none => rfl
+    | some v =>
+      simp only
+      by_cases ht : truthy v = true
+      · simp only [ht, Bool.not_true, Bool.false_eq_true, if_false, htk, if_true]
+        cases v <;> rfl
+      · have ht' : truthy v = false := by simpa using ht
+        simp [ht']
+
 /-- the part of `pyObjOk` that concerns writing member `f` -/
 def StoreOk (vs : List (String × Val)) (f : Field) : Prop :=
-  (∀ e m a p k l, f.kind = .array e m a p k → Val.get vs f.name = some (.arr l) → l.length ≤ maxCount) ∧
-  (∀ w s t, f.kind = .sizeOf w s t → Val.get vs t ≠ some .none)
+  ∀ e m a p k l, f.kind = .array e m a p k → Val.get vs f.name = some (.arr l) → l.length ≤ maxCount
 
 /-- `buffer += <store expression>` appends what the interpreter writes for the member -/
 theorem store_eval (hvs : NamesOk vs) (hcompat : FindCompat d0 d) {f : Field} (hname : mangledFree f.name = true)
@@ -82,35 +143,17 @@ theorem store_eval (hvs : NamesOk vs) (hcompat : FindCompat d0 d) {f : Field} (h
     obtain ⟨ty, hty⟩ := Option.isSome_iff_exists.mp hk
     obtain ⟨tf, lim, hfind, htk⟩ := refTypeOf_some hty
     have hl := hcompat t _ hfind
-    simp only [StoreExpr.eval, IntExpr.eval, attrOf_printer hvs hmt, hl, fieldSize, htk, hty]
-    have hnn := hok.2 w s t hkind
+    simp only [StoreExpr.eval, IntExpr.eval, attrOf_printer hvs hmt, hl, fieldSize, htk, hty, memberSizeOf]
     cases hv : Val.get vs t with
     | none => rfl
     | some v =>
-      cases v with
-      | none => exact absurd hv hnn
-      | _ =>
-        simp only [memberSizeOf]
-        cases r.size ty _ <;> rfl
+      simp only []
+      cases hr : r.size ty v <;> simp only [hr, bind, Except.bind]
   | sizeRef w s t dl =>
     simp only [hkind, Bool.and_eq_true] at hk
     obtain ⟨⟨hmt, hk⟩, hraw⟩ := hk
-    obtain ⟨ty, hty⟩ := Option.isSome_iff_exists.mp hk
-    obtain ⟨tf, lim, hfind, htk⟩ := refTypeOf_some hty
-    have hl := hcompat t _ hfind
-    simp only [StoreExpr.eval, IntExpr.eval, attrOf_raw hvs hraw hmt, sizeRefValue, hl, hty]
-    cases hv : Val.get vs t with
-    | none => rfl
-    | some v =>
-      simp only
-      by_cases ht : truthy v = true
-      · have hnn : v ≠ .none := by intro h; subst h; simp [truthy] at ht
-        simp only [ht, Bool.not_true, Bool.false_eq_true, if_false, htk]
-        cases v with
-        | none => exact absurd rfl hnn
-        | _ => simp only [memberSizeOf]
-      · have ht' : truthy v = false := by simpa using ht
-        simp [ht']
+    simp only [StoreExpr.eval]
+    rw [computed_eval' (S := S) (T := T) hvs hcompat hmt hraw hk]
   | ref ty lim =>
     simp only [StoreExpr.eval, attrOf_printer hvs hname]
     cases Val.get vs f.name with
@@ -123,7 +166,7 @@ theorem store_eval (hvs : NamesOk vs) (hcompat : FindCompat d0 d) {f : Field} (h
     | some v => cases v <;> rfl
   | array elem mode al pl key =>
     simp only [hkind] at hk
-    have hb := hok.1 elem mode al pl key
+    have hb := hok elem mode al pl key
     cases hv : Val.get vs f.name with
     | none =>
       by_cases hal : al = 0
@@ -167,8 +210,7 @@ theorem store_eval (hvs : NamesOk vs) (hcompat : FindCompat d0 d) {f : Field} (h
           simp [hal', StoreExpr.eval, attrOf_printer hvs hname, hv]
 
 /-- `size += <size expression>` adds what the interpreter counts for the member -/
-theorem size_eval (hvs : NamesOk vs) {f : Field} (hname : mangledFree f.name = true)
-    (hnn : ∀ ty lim, f.kind = .ref ty lim → Val.get vs f.name ≠ some .none) (ss : R Nat) :
+theorem size_eval (hvs : NamesOk vs) {f : Field} (hname : mangledFree f.name = true) (ss : R Nat) :
     (sizeAst f).eval { S := S, T := T, calls := r, vs := vs, selfSize := ss } = fieldSize r f (Val.get vs f.name) := by
   unfold sizeAst fieldSize
   cases hkind : f.kind with
@@ -176,10 +218,7 @@ theorem size_eval (hvs : NamesOk vs) {f : Field} (hname : mangledFree f.name = t
     simp only [SizeExpr.eval, attrOf_printer hvs hname]
     cases hv : Val.get vs f.name with
     | none => rfl
-    | some v =>
-      cases v with
-      | none => exact absurd hv (hnn ty lim hkind)
-      | _ => simp only [memberSizeOf]
+    | some v => simp only [memberSizeOf]
   | barray sf =>
     simp only [SizeExpr.eval, attrOf_printer hvs hname]
     cases Val.get vs f.name with
@@ -192,30 +231,15 @@ theorem size_eval (hvs : NamesOk vs) {f : Field} (hname : mangledFree f.name = t
     | some v => cases v <;> rfl
   | _ => rfl
 
-/-- the `…_computed` property is the interpreter's size-ref value -/
+/-- the `…_computed` property is the interpreter's size-ref value (within one class) -/
 theorem computed_eval (hvs : NamesOk vs) {m t : String} {dl : Int} {w : Nat} {s : Bool} {cf : Field}
     (hkind : cf.kind = .sizeRef w s t dl) (hk : wfgKind d cf = true) (ss : R Nat) :
-    (IntExpr.computed m t (refTypeOf d t) dl).eval { S := S, T := T, calls := r, vs := vs, selfSize := ss } =
+    (IntExpr.computed m t (refTypeOf d t) (isBytesMember d t) dl).eval { S := S, T := T, calls := r, vs := vs, selfSize := ss } =
       sizeRefValue r d.fields vs t dl := by
   unfold wfgKind at hk
   simp only [hkind, Bool.and_eq_true] at hk
   obtain ⟨⟨hmt, hk⟩, hraw⟩ := hk
-  obtain ⟨ty, hty⟩ := Option.isSome_iff_exists.mp hk
-  obtain ⟨tf, lim, hfind, htk⟩ := refTypeOf_some hty
-  have hl : lookupField d.fields t = some tf := hfind
-  simp only [IntExpr.eval, attrOf_raw hvs hraw hmt, sizeRefValue, hl, hty]
-  cases hv : Val.get vs t with
-  | none => rfl
-  | some v =>
-    simp only
-    by_cases ht : truthy v = true
-    · have hnn : v ≠ .none := by intro h; subst h; simp [truthy] at ht
-      simp only [ht, Bool.not_true, Bool.false_eq_true, if_false, htk]
-      cases v with
-      | none => exact absurd rfl hnn
-      | _ => simp only [memberSizeOf]
-    · have ht' : truthy v = false := by simpa using ht
-      simp [ht']
+  exact computed_eval' hvs (fun _ _ h => h) hmt hraw hk ss
 
 theorem enum_find_name {ms : List (String × Int)} (hd : enumNamesDistinct ms = true) {m : String × Int} (hm : m ∈ ms) :
     ms.find? (fun x => x.1 == m.1) = some m := by
